@@ -79,6 +79,7 @@ type streamCfg struct {
 	Cap       int // channel capacity per direction
 	DelayUS   int // max random delay per call (microseconds); 0 = none
 	Window    int // overlap-detector hold window: number of Gosched yields while "in call"
+	LingerUS  int // a SendMsg that delivered a REQ or a STAT returns only after this many microseconds (the peer may answer meanwhile)
 	Seed      int64
 	FailSendS int // n-th SendMsg on the sender end fails (1-based; 0 = never)
 	FailRecvS int
@@ -215,6 +216,11 @@ func (e *endpoint) SendMsg(m interface{}) error {
 	e.sh.log.add(pktEv(e.name, "send", p))
 	select {
 	case e.out <- dt:
+		if e.cfg.LingerUS > 0 && (p.Type == types.PACKET_REQ || p.Type == types.PACKET_STAT) {
+			// the packet is on its way, the caller has not got control back yet: whatever the caller does "after sending"
+			// now races with the peer's answer
+			time.Sleep(time.Duration(e.cfg.LingerUS) * time.Microsecond)
+		}
 		return nil
 	case <-e.sh.torn:
 		return errTorn
